@@ -340,6 +340,12 @@ def check_property(pid, tier, seed, replay_only=None):
         build_lean(tuple(P.get("modules", props.DEFAULT_MODULES)))
     except BuildError as e:
         proof_broken = "lake build of the proof modules failed: " + e.log[-1200:]
+    if proof_broken is None and tier == "thorough":
+        # independent re-check of the compiled proof modules by the toolchain's stand-alone checker
+        rc_ = run(["lake", "env", "leanchecker"] + list(P.get("modules", props.DEFAULT_MODULES)), cwd=LEAN, timeout=3000)
+        info["leanchecker"] = "ok" if rc_.returncode == 0 else "FAILED"
+        if rc_.returncode != 0:
+            proof_broken = "leanchecker rejects the compiled proof modules: " + rc_.stdout[-800:]
     hits = audit_sources()
     if hits:
         proof_broken = (proof_broken or "") + " forbidden constructs: " + "; ".join(hits[:5])
@@ -486,7 +492,7 @@ def finish(pid, tier, seed, t0, violations, known_hits, info, proof_broken, obli
         "known_findings_hit": [k["id"] for k, _ in known_hits],
         "proof_status": "broken: " + proof_broken[:600] if proof_broken else "all obligations checked by the Lean kernel",
     }
-    coverage.update({k: v for k, v in info.items() if k in ("facts_sha", "facts_changed", "build_error")})
+    coverage.update({k: v for k, v in info.items() if k in ("facts_sha", "facts_changed", "build_error", "leanchecker", "race_build_error")})
     ev = {"property_id": pid, "tier": tier, "seed": seed, "level": "proof", "coverage": coverage,
           "assumptions": props.ASSUMPTIONS + P.get("assumptions", []),
           "wall_s": round(time.time() - t0, 2), "violations": len(violations)}
